@@ -99,6 +99,7 @@ func c11Scenarios(tier string) []*h.Scenario {
 		name    string
 		threads [][]h.Step
 		tick    bool
+		due     time.Duration
 		prefix  func(w *h.World)
 		repos   []string
 		extra   func(w *h.World, res [][]string, final string) []h.Violation
@@ -145,6 +146,9 @@ func c11Scenarios(tier string) []*h.Scenario {
 			prefix(w)
 			_ = w.Reopen()
 		}},
+		// the repository was idle for longer than the age of its cache entry: the eviction (which collects the repository
+		// and then drops the entry) runs while the two requests arrive
+		{name: "two-tag-pushes-vs-eviction-of-the-idle-repository", due: 72 * time.Minute, threads: [][]h.Step{{putMan(repo, "I1", "t")}, {putMan(repo, "I1", "t2")}}},
 		{name: "two-repositories-vs-tick", tick: true, repos: []string{repo, "q"}, threads: [][]h.Step{{putMan(repo, "I1", "t")}, {pushBlob("q", "c")}}},
 	}
 	if tier == "thorough" {
@@ -170,7 +174,7 @@ func c11Scenarios(tier string) []*h.Scenario {
 				pf = prefix
 			}
 			conf := &h.Conf{Name: store, Store: store}
-			if d.tick {
+			if d.tick || d.due > 0 {
 				conf.Mod = func(c *config.Config) {
 					c.Storage.GC.Frequency = 15 * time.Minute
 					c.Storage.GC.GracePeriod = time.Hour
@@ -182,6 +186,7 @@ func c11Scenarios(tier string) []*h.Scenario {
 				Prefix:       pf,
 				Threads:      d.threads,
 				PendingTick:  d.tick,
+				Due:          d.due,
 				Final:        final(repos...),
 				Linearizable: true,
 				Extra:        d.extra,
